@@ -34,6 +34,8 @@ type cprogram struct {
 	ID      int   `json:"id"`
 	Prog    cprog `json:"prog"`
 	Choices []int `json:"choices"` // replay: the scheduler's choice at every step of one schedule
+	MaxPre  *int  `json:"maxpre"`  // per-program preemption bound / schedule budget (default: the flags)
+	Budget  *int  `json:"budget"`
 }
 
 // segment: consecutive steps of one thread within one call, merged into one trace line (nobody else ran
@@ -68,27 +70,49 @@ func exploreFocused(sc sched.Scenario, maxPre, budget int) (int, bool) {
 		interesting := func(t *sched.Thread) bool {
 			return strings.HasPrefix(t.Label, "LamportClock.") || t.Label == "op-done" || t.Label == "start" || after[t.ID]
 		}
+		stale := map[int]bool{} // threads whose TryLock just failed and nothing has changed since: retrying is a no-op
 		res := s.Run(func(step int, elig []*sched.Thread) int {
-			allowed := len(elig)
 			lastElig := elig[0].ID == lastID
+			var cand []int
+			for i, t := range elig {
+				if !stale[t.ID] || (i == 0 && lastElig) {
+					cand = append(cand, i)
+				}
+			}
+			if len(cand) == 0 {
+				for i := range elig {
+					cand = append(cand, i)
+				}
+			}
+			allowed := len(cand)
 			if lastElig && (preempts >= maxPre || !interesting(elig[0])) {
 				allowed = 1
 			}
 			if allowed <= 1 {
-				return 0
+				return cand[0]
 			}
 			c := 0
 			if len(cps) < len(forced) {
 				c = forced[len(cps)]
 			}
+			if c >= allowed {
+				c = 0
+			}
 			cps = append(cps, cp{c, allowed})
 			if lastElig && c != 0 {
 				preempts++
 			}
-			return c
+			return cand[c]
 		}, -1, func(st sched.Step) {
 			lastID = st.Thread
 			after[st.Thread] = strings.HasPrefix(st.From, "LamportClock.")
+			if strings.HasSuffix(st.To, ":lock") {
+				stale[st.Thread] = true
+			} else {
+				for k := range stale {
+					delete(stale, k)
+				}
+			}
 			onStep(st)
 		})
 		finish(res)
@@ -298,7 +322,14 @@ func conc(in, out, dir string, nc, maxpre, budget, nrand int) {
 			total++
 			continue
 		}
-		ns, all := exploreFocused(sc, maxpre, budget)
+		mp, bd := maxpre, budget
+		if p.MaxPre != nil {
+			mp = *p.MaxPre
+		}
+		if p.Budget != nil {
+			bd = *p.Budget
+		}
+		ns, all := exploreFocused(sc, mp, bd)
 		total += ns
 		if all {
 			complete++
